@@ -1,0 +1,19 @@
+//go:build verif
+
+package wallet
+
+// Verification-only exports (build tag `verif`) of the unexported BIP39 codec, used by the
+// /verif harness for property C20. Thin wrappers; no behaviour of their own.
+
+// VerifEncodeBIP39Phrase calls encodeBIP39Phrase.
+func VerifEncodeBIP39Phrase(entropy *[16]byte) string { return encodeBIP39Phrase(entropy) }
+
+// VerifDecodeBIP39Phrase calls decodeBIP39Phrase.
+func VerifDecodeBIP39Phrase(entropy *[16]byte, phrase string) error {
+	return decodeBIP39Phrase(entropy, phrase)
+}
+
+// VerifBIP39WordList returns a copy of the word list used by the codec.
+func VerifBIP39WordList() []string {
+	return append([]string(nil), bip39EnglishWordList...)
+}
